@@ -13,7 +13,7 @@ from mdmc.refs import codec_ref
 
 ID = "C13"
 TITLE = "Base64, hexadecimal and XOR decodings are bit-exact"
-STREAM_FAMS = ["b64hex", "mix", "ctx"]
+STREAM_FAMS = ["b64hex", "mix", "ctx", "pairs"]
 B64ABC = codec_ref.B64
 
 
@@ -53,7 +53,7 @@ def describe(tier):
             "Converse direction, exhaustive within the bound: payload length 0..%d x 5 byte classes + every single byte value at the first and last "
             "position of a 24-byte payload; bare base64 (encoded with an own encoder) x 4 embeddings at scan level, expected: exactly one "
             "encoding.base64 node covering exactly the blob with the payload as value whenever the documented acceptance rules hold (own predicate); "
-            "base64 wrapped into 5..10000 lines (boundary ladder) of width 4 and 76 with 4 line-break spellings; long payloads (up to 3000 bytes) that start with a monotonous sled so that the characters which satisfy the rules appear only late; boundary blobs on both sides of every rule (20/24 characters, 6/7 distinct characters, pure hex, pure letters, slash share 3/32 +- one "
+            "base64 wrapped into 5..10000 lines (boundary ladder) of width 4 and 76 with 4 line-break spellings; long payloads (up to 3000 bytes) that start with a monotonous sled so that the characters which satisfy the rules appear only late; boundary blobs on both sides of every rule (20/24 characters, 6/7 distinct characters (4..8 alphabet symbols x no / one / two padding characters x 3 lengths), pure hex, pure letters, slash share 3/32 +- one "
             "character; EVERY base64-alphabet character at EVERY position of a hex-only, an upper-case hex-only and a letters-only 24-character text); every assignment of %d line-break spellings to the %d gaps of a 7-group blob; 6 call forms x every payload length; hex runs of "
             "9/10/11/16 pairs x lower/upper/mixed x digit-only prefixes of 0..24 characters x embeddings; FromHexString call forms (plain, [System.Convert]:: prefix, lower case); PowerShell byte arrays of 499..640 elements x 5 element spellings (decimal, 0x hex, 0X HEX, zero-padded, mixed) x 4 separators x 3 embeddings. "
             "Forward direction: every node labelled encoding.base64 / decoded.hexadecimal / encoding.hexidecimal / cipher.xor* / cipher.multibyte_xor "
@@ -219,6 +219,13 @@ def run_unit(unit, rec):
         for distinct in (5, 6, 7, 8):
             abc = (b"A1b2C3d4")[:distinct]
             blobs.append((abc * 6)[:24])
+        # the distinct-character rule crossed with the padding forms: k alphabet symbols + '=' / '==' (padding counts as a character of the text)
+        for distinct in (4, 5, 6, 7, 8):
+            abc = (b"QUJDR0hK")[:distinct]
+            for pad in (b"", b"=", b"=="):
+                for total in (24, 28, 44):
+                    body = (abc * 8)[: total - len(pad)]
+                    blobs.append(body + pad)
         blobs += [b"deadbeefdeadbeefdeadbeef", b"DEADBEEFDEADBEEFDEADBEE1", b"abcdefghijklmnopqrstuvwx", b"abcdefghijklmnopqrstuvw1", b"AbCdEfGhIjKlMnOpQrStUvWx"]
         for slashes in (2, 3, 4):
             blobs.append((b"/" * slashes + b"Qk1DREVGR0hJSktMTU5PUFFSU1RVVldY")[:32])
